@@ -188,6 +188,16 @@ def plan(rng, tier):
         if r < 0.26:
             out.append(_modfunc(rng, g, dom, kind))
             continue
+        if r < 0.31:
+            # one lazy sequence probed several times (the search finger
+            # moves right and left): len / index / slice / partial iteration
+            q = ranges._range_op(rng, g, [m for m in meths
+                                          if not m.startswith("iter")])
+            pr = []
+            for _ in range(rng.randint(1, 3)):
+                pr.extend(ranges._probes(rng, len(g.model.d)))
+            out.append(["seqprobe", q, pr])
+            continue
         if rng.random() < 0.3:
             g.phase = rng.choice(["grow", "mixed", "shrink"])
         op = g.op()
@@ -501,6 +511,15 @@ def execute(plan, ctx):
                 before[impl] = _listing(c, mapping, impl, "before", op)
             if name == "mod":
                 outs[impl] = _apply_mod(c, op, dom, impl)
+            elif name == "seqprobe":
+                from . import ranges
+                try:
+                    seq = ops.call_range(c, op[1], dom)
+                    outs[impl] = ("ok", [ranges._run_probe(seq, pr)
+                                         for pr in op[2]])
+                    seq = None
+                except Exception as e:
+                    outs[impl] = ops.norm_exc(e)
             else:
                 outs[impl] = ops.apply(c, op, dom, impl, kind)
                 if name in ("update", "supdate") and outs[impl][0] == "ok":
